@@ -245,7 +245,20 @@ def gen(rng, n, tier="quick"):
             name = rng.choice([None, "", "x", "kwargs", "**kwargs", "*args", "model_kwargs", "**", "*"]) \
                 if rng.random() < 0.5 else G.ident(rng, allow_kwargs=True)
             add("set_name_and_type", [name, rand_gparam(rng), rng.random() < 0.5, rng.random() < 0.5], "unit")
-    return cases[:n] if len(cases) > n else cases
+    cases = cases[:n] if len(cases) > n else cases
+    # texts emitted (all three styles) from clean IRs whose summary / prose holds a section-header look-alike of some style
+    # (`Note:`, `Yields:`, `See Also:`, `:raises E:` ...): style detection on all of them, scanner and parser on the ReST ones
+    import fam_docparseng
+    m = impl()
+    for kind, ir in fam_docparseng.gen_header_word_irs(rng, max(4, n // 25)):
+        style = rng.choice(["rest", "rest", "numpydoc", "google"])
+        try:
+            text = m.emit.docstring(copy.deepcopy(ir), docstring_format=style, word_wrap=rng.random() < 0.2,
+                                    emit_default_doc=rng.random() < 0.75)
+        except Exception:  # noqa
+            continue
+        add_text(text, ["emitted:" + style, kind], scan=(style == "rest"))
+    return cases
 
 
 # ------------------------------------------------------------------ wire
@@ -420,6 +433,23 @@ def _c01_case(rng, clean=None):
     return {"ir": ir_to_json(ir), "word_wrap": rng.random() < 0.3, "keep_sentence": rng.random() < 0.5}, tags
 
 
+def _c01_header_case(rng):
+    """a case whose IR is of the proved shape except that the summary, one parameter's prose or the return prose holds a
+    section-header look-alike of some docstring style (fam_docparseng.gen_header_word_irs): emitted as ReST the text must
+    be read back as ReST whatever such words it holds"""
+    import fam_docparseng
+    kind, ir = fam_docparseng.gen_header_word_irs(rng, 1)[0]
+    return {"ir": ir_to_json(ir), "word_wrap": rng.random() < 0.15, "keep_sentence": rng.random() < 0.5}, [kind]
+
+
+def _holds_recorded_rest_token(j):
+    """does a text field of the (JSON) IR hold one of the ReST field tokens (as recorded in REST_TOKENS above)?"""
+    fields = [j.get("doc")]
+    for q in [v for _, v in j["params"]] + ([j["returns"]] if j["returns"] else []):
+        fields += [q.get("doc"), q.get("typ")]
+    return any(t in f for f in fields if isinstance(f, str) for t in REST_TOKENS)
+
+
 def c01_rest_impl(case):
     """evaluate the ReST part of C01 at one IR on the real code.
     returns (holds, what, parsed IR or None).  Comparison itself is done by the extracted relations (see oracle)."""
@@ -462,6 +492,10 @@ def oracle_rest(rng, n):
         c, tags = _c01_case(rng)
         cases.append(c)
         tagl.append(tags)
+    for _ in range(max(1, n // 5)):
+        c, tags = _c01_header_case(rng)
+        cases.append(c)
+        tagl.append(tags)
     wire = [irwire.enc_ir(ir_from_json(c["ir"])) for c in cases]
     cls_out = run_model([dumps([Sym("c01_class_rest"), c["word_wrap"], c["keep_sentence"], w])
                          for c, w in zip(cases, wire)])
@@ -483,6 +517,12 @@ def oracle_rest(rng, n):
     failures, hist, seen, disagree = [], collections.Counter(), set(), []
     for i, c in enumerate(cases):
         ce = loads(cls_out[i])
+        header = tagl[i][0] if tagl[i] and tagl[i][0].startswith("header-words") else None
+        if ce == "out-of-domain" and header and not _holds_recorded_rest_token(c["ir"]):
+            # these IRs are inside the domain by construction unless a field holds a ReST field token; the model's domain
+            # follows the token table of the tree under test, the domain of the property does not
+            ce = "none"
+            hist["header-words:domain-by-recorded-tokens"] += 1
         if ce == "out-of-domain":
             hist["out-of-domain"] += 1
             continue
@@ -490,6 +530,8 @@ def oracle_rest(rng, n):
         ok, what, got = impl_res[i]
         if ok:
             ok, what = verdict[i]
+        if header:
+            hist[header + ":" + ("holds" if ok else "fails") + ":" + (cls or "in-guard")] += 1
         if cls == "unmodelled":
             hist["skipped-unmodelled:" + ("holds" if ok else "fails")] += 1
             continue
@@ -504,7 +546,8 @@ def oracle_rest(rng, n):
     return {
         "evaluations": len(cases),
         "distinct_nontrivial": len(seen),
-        "rule": "IRs from gen_ir (clean and general strata) x emitter word_wrap x parser emit_default_doc; emitted by the "
+        "rule": "IRs from gen_ir (clean and general strata, plus clean IRs whose summary / prose holds a section-header look-alike "
+                "of any docstring style) x emitter word_wrap x parser emit_default_doc; emitted by the "
                 "real emit.docstring(rest), parsed by the real parse.docstring, compared by the extracted same_interface; "
                 "non-trivial = distinct IR with >= 1 parameter or a return entry inside guard_C01_rest",
         "failures": failures,
